@@ -13,6 +13,11 @@ CLAIMED["C16"] = dict(
     note="Trusted: Coq kernel + vm_compute, harness. Python dict/set semantics modelled as insertion-ordered association lists / duplicate-free lists compared as sets. The fuel bound of the model's breadth-first crawl (2+|connections|) is validated by the correspondence, the theorem is conditional on the crawl answering.",
     technique="Coq proof (fold invariants, induction on reachability) + model/implementation correspondence",
     ref="5/C16")
+CLAIMED["C15"] = dict(
+    text="Coq theorem over the model of the in-memory bus: for every handler behaviour publishing only to strictly higher topics and every history of subscribe/produce operations (each consumer subscribing to a topic at most once), after every operation each subscribed consumer has received exactly the topic's log in order and unsubscribed consumers nothing; produce appends exactly once; topic-name injectivity/disjointness proved over the prefix/suffix constants re-extracted from the source on every run. Model tied to InternalStateServer by exhaustive small-scope + random correspondence and a Coq oracle evaluated on the observed histories.",
+    note="Trusted: Coq kernel + vm_compute, harness, constants translator. Handlers publishing to the topic being delivered (or cyclically) are outside the property and the theorem. Subscriber iteration order of CPython sets is pinned by giving consumers small integer hashes and verified on every case.",
+    technique="Coq proof (invariant by induction on fuel/history with framing) + model/implementation correspondence",
+    ref="5/C15")
 NOT_YET = {}
 ALL = [f"C{n:02d}" for n in range(1, 21)]
 
